@@ -17,6 +17,7 @@ import (
 // TypedStats counts the typed rewrites of one file.
 type TypedStats struct {
 	MapRanges int
+	MapWrites int
 }
 
 // Typed loads the given packages of the repository with type information and rewrites, in addition to the syntactic
@@ -46,6 +47,8 @@ func Typed(repo string, patterns []string) (map[string][]byte, map[string]Stats,
 			if err != nil {
 				return nil, nil, nil, err
 			}
+			nw := mapWrites(p.Fset, f, p.TypesInfo, rel)
+			n += nw
 			var buf bytes.Buffer
 			if n > 0 {
 				astutil.AddImport(p.Fset, f, vschedPath)
@@ -61,7 +64,7 @@ func Typed(repo string, patterns []string) (map[string][]byte, map[string]Stats,
 			if n > 0 || changed {
 				out[rel] = text
 				sst[rel] = st
-				tst[rel] = TypedStats{MapRanges: n}
+				tst[rel] = TypedStats{MapRanges: n - nw, MapWrites: nw}
 			}
 		}
 	}
@@ -118,4 +121,71 @@ func mapRanges(fset *token.FileSet, f *ast.File, info *types.Info, rel string) (
 		return true
 	})
 	return n, firstErr
+}
+
+// mapWrites inserts a race probe before every statement `m[k] = v` / `m[k] op= v` / `delete(m, k)` on a map.
+func mapWrites(fset *token.FileSet, f *ast.File, info *types.Info, rel string) int {
+	n := 0
+	isMap := func(e ast.Expr) bool {
+		tv, ok := info.Types[e]
+		if !ok {
+			return false
+		}
+		_, m := tv.Type.Underlying().(*types.Map)
+		return m
+	}
+	probe := func(m ast.Expr, pos token.Pos) ast.Stmt {
+		site := fmt.Sprintf("%s:%d", rel, fset.Position(pos).Line)
+		return &ast.ExprStmt{X: &ast.CallExpr{Fun: sel("vsched", "MapAcc"), Args: []ast.Expr{m, &ast.BasicLit{Kind: token.STRING, Value: fmt.Sprintf("%q", site)},
+			ast.NewIdent("true")}}}
+	}
+	insertable := func(c *astutil.Cursor) bool {
+		switch c.Parent().(type) {
+		case *ast.BlockStmt, *ast.CaseClause, *ast.CommClause:
+			return c.Index() >= 0
+		}
+		return false
+	}
+	astutil.Apply(f, nil, func(c *astutil.Cursor) bool {
+		switch st := c.Node().(type) {
+		case *ast.AssignStmt:
+			if !insertable(c) {
+				return true
+			}
+			for _, l := range st.Lhs {
+				if ix, ok := l.(*ast.IndexExpr); ok && isMap(ix.X) {
+					if id, ok := ix.X.(*ast.Ident); ok || isSimpleSel(ix.X) {
+						_ = id
+						c.InsertBefore(probe(ix.X, st.Pos()))
+						n++
+					}
+				}
+			}
+		case *ast.ExprStmt:
+			if !insertable(c) {
+				return true
+			}
+			if call, ok := st.X.(*ast.CallExpr); ok {
+				if id, ok := call.Fun.(*ast.Ident); ok && id.Name == "delete" && len(call.Args) == 2 && isMap(call.Args[0]) && (isSimpleSel(call.Args[0]) || isIdent(call.Args[0])) {
+					c.InsertBefore(probe(call.Args[0], st.Pos()))
+					n++
+				}
+			}
+		}
+		return true
+	})
+	return n
+}
+
+func isIdent(e ast.Expr) bool { _, ok := e.(*ast.Ident); return ok }
+
+// isSimpleSel: x.f.g chains of identifiers (side-effect free to evaluate twice).
+func isSimpleSel(e ast.Expr) bool {
+	switch x := e.(type) {
+	case *ast.Ident:
+		return true
+	case *ast.SelectorExpr:
+		return isSimpleSel(x.X)
+	}
+	return false
 }
